@@ -34,6 +34,7 @@ structure COp where
   inm  : Bool := false
   im   : String := "~"
   off  : Option Nat := none
+  ents : List (String × String) := []   -- dels: (key, If-Match token) per entry of a bulk delete
   deriving Repr, Inhabited
 
 abbrev CEv := Lin.Ev COp String
@@ -77,12 +78,33 @@ def mkOp (st : State) (o : COp) : Op :=
 does not constrain and that had no effect (an offset-less append refused with InvalidWriteOffset
 after losing the version race — a retryable refusal, not an acknowledged write). -/
 def specStep (st : State) (o : COp) : State × Out :=
-  if o.name == "nop" then ({ st with clock := st.clock + 1 }, .unit) else step Quirks.code st (mkOp st o)
+  if o.name == "nop" then ({ st with clock := st.clock + 1 }, .unit)
+  else if o.name == "dels" then
+    -- a bulk DeleteObjects call: its entries take effect one after the other, at one point; the
+    -- per-entry results (D = deleted, P = PreconditionFailed) are carried in `.buckets`
+    let (st', rs) := o.ents.foldl (fun (acc : State × List String) (key, im) =>
+      -- metadataPartStorage.DeleteObjects probes, in a SUSPENDED bucket, the null version (not the
+      -- current one) and tests a conditional entry's ETag against it first (DeleteObject does not)
+      let probeFails : Bool := match findBucket acc.1 o.b with
+        | some bk => bk.ver == .suspended && im != "~" &&
+            (match nullRow bk key with
+             | some n => n.dm || concETag n.etag != im
+             | none => true)
+        | none => false
+      if probeFails then ({ acc.1 with clock := acc.1.clock + 1 }, acc.2 ++ ["P"]) else
+      let (s', out) := step Quirks.code acc.1 (.del o.b key none (imOf acc.1 o.b key im))
+      (s', acc.2 ++ [match out with
+        | .deleted _ _ => "D"
+        | .err .preconditionFailed => "P"
+        | _ => "X"])) (st, [])
+    (st', .buckets rs)
+  else step Quirks.code st (mkOp st o)
 
 def agree (out : Out) (res : String) : Bool :=
   let t := tokens res
   match out, t with
   | .unit, _ => true      -- only produced for `nop`
+  | .buckets rs, "ok" :: _ => kvOf t "r" == String.intercalate "," rs      -- only produced for `dels`
   | .err e, "err" :: k :: _ => e.toString == k
   | .wrote _ etag, "ok" :: _ => kvOf t "etag" == concETag etag
   | .deleted _ dm, "ok" :: _ => kvOf t "dm" == (if dm then "1" else "0")
@@ -99,6 +121,7 @@ def outStr : Out → String
   | .deleted _ dm => s!"ok dm={if dm then 1 else 0}"
   | .appended e n => s!"ok etag={concETag e} size={n}"
   | .obj v => s!"ok etag={concETag v.etag} size={v.size}"
+  | .buckets rs => "ok r=" ++ String.intercalate "," rs
   | _ => "?"
 
 def parseCop (l : String) : Option (COp × Nat × Nat) :=
@@ -114,7 +137,12 @@ def parseCop (l : String) : Option (COp × Nat × Nat) :=
                        body := if name == "put" || name == "app" then bytesOf arg else [],
                        up := if name == "cmpl" then natOf arg else 0,
                        inm := kvOf t "inm" == "1", im := kvOf t "im",
-                       off := if offT == "~" then none else some (natOf offT) }
+                       off := if offT == "~" then none else some (natOf offT),
+                       ents := if name == "dels" then ((kvOf t "e").splitOn ",").filterMap fun e =>
+                           match e.splitOn ":" with
+                           | [key, im] => some (key, im)
+                           | _ => none
+                         else [] }
       some (o, natOf (kvOf t "inv"), natOf (kvOf t "resp"))
     | _ => none
   | _ => none
@@ -235,7 +263,10 @@ def judgeCase (_k : Nat) (lines : List String) : Verdict := Id.run do
   -- succeed, so such a refusal is an effect-free call, like the offset-less append above.
   let interleave := kvOf cfg "kind" == "interleave"
   let lostRace (e : CEv) : Bool :=
-    interleave && e.op.im != "~" && !e.op.inm && e.obs.startsWith "err PreconditionFailed" &&
+    interleave && ((e.op.im != "~" && !e.op.inm && e.obs.startsWith "err PreconditionFailed") ||
+      -- … and an append that was REFUSED (lost version race, stale snapshot detected by the prefix
+      -- check or the part manifest): not acknowledged, must have no effect (the final read shows it)
+      (e.op.name == "app" && e.obs.startsWith "err")) &&
     evs.toList.any fun f => f.op.id != e.op.id && f.op.g != 99 && f.inv < e.resp && e.inv < f.resp && f.obs.startsWith "ok"
   let relaxed := evs.map fun e => if lostRace e then { e with op := { e.op with name := "nop" } } else e
   let nLost := (evs.toList.filter lostRace).length
@@ -263,7 +294,7 @@ def judgeCase (_k : Nat) (lines : List String) : Verdict := Id.run do
   let initPresent := initTok != "~"
   let initBody : Bytes := if initPresent then bytesOf initTok else []
   let initEtag := if initPresent then concETag (singleETag initBody) else ""
-  let okDel := conc.any fun i => i.ev.op.name == "del" && i.ok
+  let okDel := conc.any fun i => (i.ev.op.name == "del" || i.ev.op.name == "dels") && i.ok
   let okWrites := conc.filter fun i => isWrite i.ev.op && i.ok
   let inmOk := conc.filter fun i => i.ev.op.inm && i.ok
   -- If-None-Match
@@ -338,7 +369,7 @@ def judgeCase (_k : Nat) (lines : List String) : Verdict := Id.run do
   -- a write-offset append may only be accepted at the current size: with offsets, two acknowledged
   -- appends that name the same offset and have non-empty bodies cannot both be right unless a
   -- delete/put intervened
-  let replaced := conc.any fun i => i.ok && (i.ev.op.name == "del" || i.ev.op.name == "put" || i.ev.op.name == "cmpl")
+  let replaced := conc.any fun i => i.ok && (i.ev.op.name == "del" || i.ev.op.name == "dels" || i.ev.op.name == "put" || i.ev.op.name == "cmpl")
   if !replaced then
     let offAcks := acks.filter fun a => a.ev.op.off.isSome && !a.ev.op.body.isEmpty
     for a in offAcks do
@@ -355,7 +386,7 @@ def judgeCase (_k : Nat) (lines : List String) : Verdict := Id.run do
     ("linearizable", if linOk then 1 else 0), ("inm_winners", inmOk.length), ("if_match_successes", imOk.length),
     ("append_acks", acks.length), ("append_races_judged", appendJudged),
     ("statement_interleavings", if interleave then 1 else 0),
-    ("if_match_refused_after_lost_version_race", if found0.isNone then nLost else 0),
+    ("refused_after_lost_version_race", if found0.isNone then nLost else 0),
     ("stack_" ++ kvOf cfg "stack", 1), ("ver_" ++ kvOf cfg "ver", 1), ("kind_" ++ kvOf cfg "kind", 1)]
   for i in conc do
     stats := addStats stats [("op_" ++ i.ev.op.name ++ (if i.ev.op.inm then "_inm" else if i.ev.op.im != "~" then "_im" else ""), 1),
